@@ -509,6 +509,9 @@ set_ixor(Bucket* self, PyObject* other)
     PyObject* iter = NULL;
     PyObject* result = NULL;
     PyObject* v = NULL;
+    PyObject* to_add = NULL;
+    PyObject* to_remove = NULL;
+    Py_ssize_t i;
     int contained = 0;
 
     if (other == (PyObject*)self) {
@@ -526,6 +529,16 @@ set_ixor(Bucket* self, PyObject* other)
             return Py_NotImplemented;
         }
 
+        /* Decide for every element of other against our *original*
+         * contents, then apply:  an element that occurs more than once in
+         * other must not be toggled more than once.
+         */
+        to_add = PyList_New(0);
+        to_remove = PyList_New(0);
+        if (to_add == NULL || to_remove == NULL) {
+            goto err;
+        }
+
         while (1) {
             v = PyIter_Next(iter);
             if (v == NULL) {
@@ -536,17 +549,32 @@ set_ixor(Bucket* self, PyObject* other)
                     break;
                 }
             }
-            /* contained is also used as an error flag for the removal/addition */
             contained = bucket_contains(self, v);
             if (contained != -1) {
-                /* If not present (contained == 0), add it, otherwise remove it. */
-                contained = _bucket_set(self, v,
-                                        contained == 0 ? Py_None : NULL,
-                                        contained == 0 ? 1 : 0,
-                                        1, 0);
+                if (PyList_Append(contained ? to_remove : to_add, v) < 0) {
+                    contained = -1;
+                }
             }
             Py_DECREF(v);
             if (contained < 0) {
+                goto err;
+            }
+        }
+
+        for (i = 0; i < PyList_GET_SIZE(to_remove); i++) {
+            /* v is borrowed from the list */
+            v = PyList_GET_ITEM(to_remove, i);
+            contained = bucket_contains(self, v);
+            if (contained == 1) {
+                contained = _bucket_set(self, v, NULL, 0, 1, 0);
+            }
+            if (contained < 0) {
+                goto err;
+            }
+        }
+        for (i = 0; i < PyList_GET_SIZE(to_add); i++) {
+            v = PyList_GET_ITEM(to_add, i);
+            if (_bucket_set(self, v, Py_None, 1, 1, 0) < 0) {
                 goto err;
             }
         }
@@ -557,6 +585,8 @@ set_ixor(Bucket* self, PyObject* other)
 
 err:
     Py_XDECREF(iter);
+    Py_XDECREF(to_add);
+    Py_XDECREF(to_remove);
     return result;
 }
 
